@@ -26,7 +26,10 @@ function makeEnv(variant = 0) {
   const gres = { id: 'gid', class: 'gc', onClick: fn('hg') };
   bound.f = names.reg(function f() { return 'fres' + variant; }, 'f');
   bound.g = names.reg(function g() { return gres; }, 'g');
-  const globals = { u: 'uval' + variant, hu: fn('hu'), su: { id: 'suid' } };
+  // stub for a configured pragma (`hh`): the same observable record as createVNode (class/style normalised like Vue does)
+  const V = require('./vue');
+  const hh = (type, props, children) => { if (props) { props = Object.assign({}, props); if (props.class && typeof props.class !== 'string') props.class = V.normalizeClass(props.class); if (props.style && typeof props.style === 'object') props.style = V.normalizeStyle(props.style); } return { __v_isVNode: true, type, props: props || null, children: children === undefined ? null : children, dirs: null }; };
+  const globals = { u: 'uval' + variant, hu: fn('hu'), su: { id: 'suid' }, hh };
   return { bound, globals, names, variant, gres, mv0: 'mv0' };
 }
 
@@ -106,6 +109,9 @@ const HOSTS = {
   Fragment:  { open: 'Fragment', kind: 'element', type: () => 'Fragment' },
   FragmentI: { open: 'Fragment', kind: 'element', type: () => 'Fragment', imports: "import { Fragment } from 'vue';" },
   FragmentAlias2: { open: 'Fq', kind: 'element', type: () => 'Fragment', imports: "import { Fragment as Fq } from 'vue';\nimport { ref as unusedRef } from 'vue';" },
+  // the alias is one of several specifiers of the import (after / before other special names)
+  FragmentAfterDc: { open: 'Fd', kind: 'element', type: () => 'Fragment', imports: "import { defineComponent, KeepAlive as Ka, Fragment as Fd, h as unusedH } from 'vue';" },
+  FragmentTwoImports: { open: 'Ft', kind: 'element', type: () => 'Fragment', imports: "import { defineComponent } from 'vue';\nimport { ref as unusedRef2 } from 'vue';\nimport { Fragment as Ft } from 'vue';" },
   FragmentStr: { open: 'Fs', kind: 'element', type: () => 'Fragment', imports: "import { \"Fragment\" as Fs } from 'vue';" },
   KeepAlive: { open: 'KeepAlive', kind: 'element', type: () => 'KeepAlive', imports: "import { KeepAlive } from 'vue';" },
   KeepAliveU:{ open: 'KeepAlive', kind: 'element', type: () => 'resolved:KeepAlive' },
